@@ -187,9 +187,10 @@ Example guards_satisfiable :
   (skip_empty_refs = true -> nodeset_arg_ok (ANodes [[b_]; []]) = false).
 Proof. vm_compute. auto. Qed.
 
-(* FunctionKey.cpp:170 skips empty string-values when the node-set argument has more than one
-   node: the nodes whose key value is "" are missing from the union.  GenKey.skip_empty_refs is
-   regenerated from FunctionKey.cpp on every run and says whether the source still has that test. *)
+(* Until commit 2389026 FunctionKey.cpp skipped empty string-values when the node-set argument had
+   more than one node (former finding K-C15-1).  GenKey.skip_empty_refs is regenerated from
+   FunctionKey.cpp on every run and says whether the source has that test: if it comes back the
+   full statement is refuted by this witness (and the live theorems below stop checking). *)
 Theorem key_nodeset_arg_spec_refuted : skip_empty_refs = true ->
   exists W decls d name vs, gdeclared decls name = true /\
     snd (function_key W decls [] d name (ANodes vs)) <>
@@ -200,12 +201,7 @@ Proof.
 Qed.
 Print Assumptions key_nodeset_arg_spec_refuted.
 
-Example refuted_witness_values : skip_empty_refs = true ->
-  snd (function_key [doc0; doc1] (merged sheet0) [] 0 [a_] (ANodes [[b_]; []])) = Nodes [x0k] /\
-  key_spec_set (map (view 0) (merged sheet0)) doc0 [a_] [[b_]; []] = [x0; x0k; txt0].
-Proof. vm_compute. intro H. first [discriminate H | auto]. Qed.
-
-(* and once the source no longer has the test, the full statement holds *)
+(* without the test the full statement holds *)
 Theorem key_nodeset_arg_spec_when_unguarded : skip_empty_refs = false ->
   forall W decls c d name vs, cinv W decls c -> gdeclared decls name = true ->
   snd (function_key W decls c d name (ANodes vs)) = Nodes (key_spec_set (map (view d) decls) (wdoc W d) name vs).
@@ -215,3 +211,29 @@ Proof.
   induction vs as [|v r IH]; simpl; auto.
 Qed.
 Print Assumptions key_nodeset_arg_spec_when_unguarded.
+
+(* the live statements for the source as it is (GenKey.skip_empty_refs = false by computation):
+   node-set argument = ordered, duplicate-free union over ALL string-values, no guard *)
+Theorem key_nodeset_arg_spec : forall W decls c d name vs, cinv W decls c -> gdeclared decls name = true ->
+  snd (function_key W decls c d name (ANodes vs)) = Nodes (key_spec_set (map (view d) decls) (wdoc W d) name vs).
+Proof. exact (key_nodeset_arg_spec_when_unguarded eq_refl). Qed.
+Print Assumptions key_nodeset_arg_spec.
+
+(* every history of probes with declared names answers the specification *)
+Theorem key_history_spec : forall W decls ps,
+  Forall (fun pr : probe => gdeclared decls (snd (fst pr)) = true) ps ->
+  run_history W decls [] ps =
+  map (fun pr : probe => key_fn_spec W decls (fst (fst pr)) (snd (fst pr)) (snd pr)) ps.
+Proof.
+  intros W decls ps H. apply key_history_spec_partial. eapply Forall_impl; [|exact H].
+  intros pr Hp. split. exact Hp. destruct (snd pr) as [s|vs]. reflexivity.
+  unfold nodeset_arg_ok. apply orb_true_iff. right.
+  induction vs as [|v r IH]; simpl; auto.
+Qed.
+Print Assumptions key_history_spec.
+
+(* the former counterexample now answers the specification *)
+Example former_witness_values :
+  snd (function_key [doc0; doc1] (merged sheet0) [] 0 [a_] (ANodes [[b_]; []])) = Nodes [x0; x0k; txt0] /\
+  key_spec_set (map (view 0) (merged sheet0)) doc0 [a_] [[b_]; []] = [x0; x0k; txt0].
+Proof. vm_compute. auto. Qed.
